@@ -212,8 +212,10 @@ def check_property(pid, tier, seed):
         'wall_s': round(time.time() - t0, 2),
         'violations': len(viol),
     }
-    os.makedirs(os.path.join(VERIF, 'evidence'), exist_ok=True)
-    json.dump(ev, open(os.path.join(VERIF, 'evidence', f'{pid}.json'), 'w'), indent=1)
+    # VERIF_SCRATCH=1 (experiments on a deliberately changed tree): keep the committed evidence untouched
+    evdir = os.path.join(BUILD, 'scratch-evidence') if os.environ.get('VERIF_SCRATCH') else os.path.join(VERIF, 'evidence')
+    os.makedirs(evdir, exist_ok=True)
+    json.dump(ev, open(os.path.join(evdir, f'{pid}.json'), 'w'), indent=1)
 
     for l in lines:
         print(l)
